@@ -367,7 +367,9 @@ func gen(o hreg.Opts, w *bufio.Writer) error {
 			in.ephv, in.msl, in.meb, in.scs = uint64(m.EPOCHS_PER_HISTORICAL_VECTOR), uint64(m.MIN_SEED_LOOKAHEAD), uint64(m.MAX_EFFECTIVE_BALANCE), uint64(m.SYNC_COMMITTEE_SIZE)
 		default:
 			in.spe, in.tcs, in.mcs, in.src = pickU(4, 8), pickU(2, 4), pickU(2, 4, 64), pickU(10, 10, 10, 90)
-			in.ephv, in.msl, in.meb, in.scs = pickU(16, 64), pickU(1, 1, 2), pickU(32000000000, 32000000000, 2048000000000), pickU(8, 16, 32)
+			// EPOCHS_PER_HISTORICAL_VECTOR: powers of two and NOT powers of two (the seed's mix index is computed modulo
+			// the vector length; with epoch + length - lookahead - 1 a wrapped subtraction only shows for the latter)
+			in.ephv, in.msl, in.meb, in.scs = pickU(16, 64, 13, 24, 72, 96, 1022), pickU(1, 1, 2), pickU(32000000000, 32000000000, 2048000000000), pickU(8, 16, 32)
 		}
 		st.Add("preset", preset)
 		st.Add("shuffle-rounds", u(in.src))
@@ -401,11 +403,13 @@ func gen(o hreg.Opts, w *bufio.Writer) error {
 		}
 		// slot
 		var epoch uint64
-		switch rng.Intn(6) {
+		switch rng.Intn(7) {
 		case 0:
 			epoch = 0
 		case 1:
 			epoch = 1
+		case 6:
+			epoch = 2 + uint64(rng.Intn(2))
 		case 2:
 			epoch = uint64(1) << uint(10+rng.Intn(40))
 		default:
@@ -506,6 +510,13 @@ func gen(o hreg.Opts, w *bufio.Writer) error {
 			st.Add("committees-per-slot", "capped at MAX")
 		default:
 			st.Add("committees-per-slot", "in between")
+		}
+		if in.ephv&(in.ephv-1) == 0 {
+			st.Add("EPOCHS_PER_HISTORICAL_VECTOR", "power of two")
+		} else if epoch <= in.msl+1 {
+			st.Add("EPOCHS_PER_HISTORICAL_VECTOR", "not a power of two, epoch <= MIN_SEED_LOOKAHEAD+1")
+		} else {
+			st.Add("EPOCHS_PER_HISTORICAL_VECTOR", "not a power of two, later epoch")
 		}
 		if epoch == 0 {
 			st.Add("epoch", "genesis")
